@@ -319,8 +319,11 @@ def run(ctx):
                'list) results that passed the oracle',
           space_digest=core.digest(sorted(json.dumps(c, sort_keys=True) for c in cfgs)))
   for c in cfgs[:3]:
-    ctx.sample({'cfg': c, 'key': ringkeys.table(c['hash'])[12345],
-                'destinations': list(make_router(c).getDestinations(ringkeys.table(c['hash'])[12345]))})
+    try:
+      dsts = list(make_router(c).getDestinations(ringkeys.table(c['hash'])[12345]))
+    except Exception as e:   # noqa - already reported as a violation by the sweep
+      dsts = 'raised %r' % (e,)
+    ctx.sample({'cfg': c, 'key': ringkeys.table(c['hash'])[12345], 'destinations': dsts})
   ctx.assumptions += ['mmh3/pyhash absent: hash types carbon_ch and fnv1a_ch only',
                       'keys: one metric name per ring position (hash of the name verified by the reference)']
   if not shapes:
